@@ -1,10 +1,12 @@
-//@unit c05_traverse props=C05,C06 widths=u32
+//@unit c05_traverse props=C05,C06,C07 widths=u32
 //@use prelude/head.rs
+//@use prelude/lrpar.rs
 
 // lrpar/src/lib/cpctplus.rs: how the search merges nodes and gets the repair sequences back out of a merged node:
 // PathFNode::eq / last_repair (which nodes count as one configuration), the merge closure of `recover` (folding one node's
 // history into another's) and traverse (nested in collect_repairs), which unfolds the merged repair histories of a
-// search node into repair sequences.  A history is a cactus of RepairMerge values (most recent first); a Merge carries
+// search node into repair sequences; collect_repairs around it; the neighbours and success closures of `recover`; and
+// the part of `recover` after the search (collect, rank, simplify, apply the first sequence).  A history is a cactus of RepairMerge values (most recent first); a Merge carries
 // the histories of the nodes that were merged into this one.  Decides for C05 / C06: the sequences returned are exactly
 // the root-to-node readings of the history -- at a merge, either the node's own history extended by its repair, or the
 // whole reading of one of the histories merged into it -- nothing lost and nothing invented.
@@ -373,6 +375,193 @@ fn eq(this: &PathFNode, other: &PathFNode) -> (r: bool)
     //@rule n=* `\bself\.` => `this.`
     //@rule n=1 `this\.pstack != other\.pstack` => `this.pstack.ne_(&other.pstack)`
     //@rule n=1 `match \(this\.last_repair\(\), other\.last_repair\(\)\) \{` => `match (last_repair(this), last_repair(other)) {`
+    //@endbody
+}
+
+// ---- collect_repairs: every candidate node's history unfolded and turned into reportable repairs ----
+pub struct CPCTPlus { pub _p: usize }
+impl CPCTPlus {
+    // repair_to_parse_repair is under contract in unit c06_cpct (there: spr is to_parse_repairs(..).0, under the same precondition)
+    pub uninterp spec fn spr(&self, from: Seq<Repair>, laidx: int) -> Seq<ParseRepair>;
+    #[verifier::external_body]
+    pub fn repair_to_parse_repair(&self, laidx: usize, from: &Vec<Repair>) -> (r: Vec<ParseRepair>)
+        requires laidx + from@.len() < usize::MAX, // OBLG: C05.collect.positions_named_by_a_repair_do_not_overflow
+        ensures r@ == self.spr(from@, laidx as int)
+    { unimplemented!() }
+}
+// out is, sequence by sequence, what repair_to_parse_repair makes of a list holding exactly the readings of h
+pub open spec fn is_image(this: &CPCTPlus, out: Seq<Vec<ParseRepair>>, h: Hist, la: int) -> bool {
+    exists|t: Seq<Vec<Repair>>| image_of(this, out, t, h, la)
+}
+pub open spec fn image_of(this: &CPCTPlus, out: Seq<Vec<ParseRepair>>, t: Seq<Vec<Repair>>, h: Hist, la: int) -> bool {
+    (forall|s: Seq<Repair>| has(t, s) <==> reading(h, s)) && out.len() == t.len() && (forall|j: int| 0 <= j < t.len() ==> (#[trigger] out[j])@ == this.spr(t[j]@, la))
+}
+//@ctx collect_repairs: every candidate is a node the search built (its history ends in the Terminator); in_laidx plus the length of a repair sequence does not overflow usize
+fn collect_repairs(this: &CPCTPlus, finish_by: Instant, in_laidx: usize, cnds: Vec<PathFNode>) -> (r: Option<Vec<Vec<Vec<ParseRepair>>>>)
+    requires forall|k: int| 0 <= k < cnds@.len() ==> wf((#[trigger] cnds@[k]).repairs.v()),
+        forall|k: int, s: Seq<Repair>| 0 <= k < cnds@.len() && #[trigger] reading(cnds@[k].repairs.v(), s) ==> in_laidx + s.len() < usize::MAX,
+    ensures r matches Some(out) ==> out@.len() == cnds@.len() && forall|k: int| 0 <= k < cnds@.len() ==> is_image(this, (#[trigger] out@[k])@, cnds@[k].repairs.v(), in_laidx as int), // OBL: C05.collect.each_candidate_reports_exactly_the_readings_of_its_history_from_the_error_position C06.collect.each_candidate_reports_exactly_the_readings_of_its_history_from_the_error_position
+{
+    //@probe
+    //@body file=lrpar/src/lib/cpctplus.rs fn=collect_repairs block=`let mut all_rprs = Vec::with_capacity\(cnds\.len\(\)\);` end=`^\s*Some\(all_rprs\)$`
+    //@rule n=1 `let mut all_rprs = Vec::with_capacity\(cnds\.len\(\)\);` => `let mut all_rprs: Vec<Vec<Vec<ParseRepair>>> = Vec::with_capacity(cnds.len());`
+    //@rule n=1 `^(\s*)for cnd in cnds \{$` =>>
+    for ci_ in 0..cnds.len()
+        invariant all_rprs@.len() == ci_,
+            forall|k: int| 0 <= k < cnds@.len() ==> wf((#[trigger] cnds@[k]).repairs.v()),
+            forall|k: int, s: Seq<Repair>| 0 <= k < cnds@.len() && #[trigger] reading(cnds@[k].repairs.v(), s) ==> in_laidx + s.len() < usize::MAX,
+            forall|k: int| 0 <= k < ci_ ==> is_image(this, (#[trigger] all_rprs@[k])@, cnds@[k].repairs.v(), in_laidx as int),
+    {
+        //@probe
+        let cnd = &cnds[ci_];
+    //@end
+    // dialect rule 5: `v.into_iter().map(|x| f(&x)).collect::<Vec<_>>()` as a loop pushing f of every element, in order
+    //@rule n=1 `all_rprs\.push\(\s*traverse\(finish_by, &cnd\.repairs\)\?\s*\.into_iter\(\)\s*\.map\(\|x\| self\.repair_to_parse_repair\(([^,()]+), &x\)\)\s*\.collect::<Vec<_>>\(\),\s*\);` =>>
+    let tr_ = traverse(finish_by, &cnd.repairs)?;
+    let mut mapped_: Vec<Vec<ParseRepair>> = Vec::new();
+    for xi_ in 0..tr_.len()
+        invariant mapped_@.len() == xi_, 0 <= ci_ < cnds@.len(), cnd == &cnds@[ci_ as int],
+            forall|s: Seq<Repair>| has(tr_@, s) <==> reading(cnd.repairs.v(), s),
+            forall|k: int, s: Seq<Repair>| 0 <= k < cnds@.len() && #[trigger] reading(cnds@[k].repairs.v(), s) ==> in_laidx + s.len() < usize::MAX,
+            forall|j: int| 0 <= j < xi_ ==> (#[trigger] mapped_@[j])@ == this.spr(tr_@[j]@, in_laidx as int), // OBL: C05.collect.every_sequence_is_converted_from_the_error_position
+    {
+        //@probe
+        let x = moved_out(&tr_, xi_);
+        proof { assert(has(tr_@, tr_@[xi_ as int]@)); }
+        mapped_.push(this.repair_to_parse_repair(\1, &x));
+    }
+    proof { assert(image_of(this, mapped_@, tr_@, cnd.repairs.v(), in_laidx as int)); }
+    all_rprs.push(mapped_);
+    //@end
+    //@endbody
+}
+
+// ---- recover, after the search: collect, rank, simplify, apply the first sequence ----
+pub const TRY_PARSE_AT_MOST: usize = 250;
+//@expect file=lrpar/src/lib/cpctplus.rs re=`const TRY_PARSE_AT_MOST: usize = 250;`
+#[verifier::external_body] pub struct Parser { _x: usize }
+#[verifier::external_body] pub struct AStack { _x: usize }     // Vec<AStackType<..>>
+pub uninterp spec fn ranked(parser: &Parser, in_laidx: int, st: Seq<StIdx<$T>>, cnds: Seq<Vec<Vec<ParseRepair>>>) -> Seq<Vec<ParseRepair>>;
+// rank_cnds is under contract in unit c06_rank (there: `ranked` is reported(.., best(..)), under the same preconditions)
+#[verifier::external_body]
+pub fn rank_cnds(parser: &Parser, finish_by: Instant, in_laidx: usize, in_pstack: &Vec<StIdx<$T>>, in_cnds: Vec<Vec<Vec<ParseRepair>>>) -> (r: Vec<Vec<ParseRepair>>)
+    requires in_laidx + TRY_PARSE_AT_MOST <= usize::MAX,
+        forall|k: int| 0 <= k < in_cnds@.len() ==> (#[trigger] in_cnds@[k])@.len() > 0, // OBLG: C06.recover.no_candidate_without_a_repair_sequence_is_ranked
+    ensures r@ == ranked(parser, in_laidx as int, in_pstack@, in_cnds@)
+{ unimplemented!() }
+pub uninterp spec fn simplified(parser: &Parser, a: Seq<Vec<ParseRepair>>, b: Seq<Vec<ParseRepair>>) -> bool;
+// simplify_repairs is under contract in unit c06_cpct (there: `simplified` is the conjunction of its postconditions, the last of which is used here)
+#[verifier::external_body]
+pub fn simplify_repairs(parser: &Parser, all_rprs: &mut Vec<Vec<ParseRepair>>)
+    ensures simplified(parser, old(all_rprs)@, final(all_rprs)@), old(all_rprs)@.len() > 0 ==> final(all_rprs)@.len() > 0
+{ unimplemented!() }
+pub uninterp spec fn applied_la(parser: &Parser, laidx: int, st: Seq<StIdx<$T>>, reps: Seq<ParseRepair>) -> int;
+pub uninterp spec fn applied_st(parser: &Parser, laidx: int, st: Seq<StIdx<$T>>, reps: Seq<ParseRepair>) -> Seq<StIdx<$T>>;
+// apply_repairs is under contract in unit c05_apply; `&mut Some(astack)` / `&mut Some(spans)`: the real value and span stacks are handed over
+#[verifier::external_body]
+pub fn apply_repairs_building(parser: &Parser, laidx: usize, pstack: &mut Vec<StIdx<$T>>, astack: &mut AStack, spans: &mut Vec<Span>, repairs: &Vec<ParseRepair>) -> (r: usize)
+    requires laidx + repairs@.len() < usize::MAX, // OBLG: C05.recover.positions_of_the_applied_sequence_do_not_overflow
+    ensures r == applied_la(parser, laidx as int, old(pstack)@, repairs@), final(pstack)@ == applied_st(parser, laidx as int, old(pstack)@, repairs@)
+{ unimplemented!() }
+impl CPCTPlus {
+    // the method form of collect_repairs above
+    fn collect_repairs(&self, finish_by: Instant, in_laidx: usize, cnds: Vec<PathFNode>) -> (r: Option<Vec<Vec<Vec<ParseRepair>>>>)
+        requires forall|k: int| 0 <= k < cnds@.len() ==> wf((#[trigger] cnds@[k]).repairs.v()),
+            forall|k: int, s: Seq<Repair>| 0 <= k < cnds@.len() && #[trigger] reading(cnds@[k].repairs.v(), s) ==> in_laidx + s.len() < usize::MAX,
+        ensures r matches Some(out) ==> out@.len() == cnds@.len() && forall|k: int| 0 <= k < cnds@.len() ==> is_image(self, (#[trigger] out@[k])@, cnds@[k].repairs.v(), in_laidx as int),
+    { collect_repairs(self, finish_by, in_laidx, cnds) }
+}
+//@ctx recover_after_search: the candidates are success nodes the search built and none is the start node (recovery starts at an Error action, so the start node is not a success node); in_laidx + TRY_PARSE_AT_MOST and in_laidx + the length of any repair sequence do not overflow usize
+fn recover_after_search(this: &CPCTPlus, finish_by: Instant, parser: &Parser, in_laidx: usize, in_pstack: &mut Vec<StIdx<$T>>, astack: &mut AStack, spans: &mut Vec<Span>, astar_cnds: Vec<PathFNode>) -> (r: (usize, Vec<Vec<ParseRepair>>))
+    requires in_laidx + TRY_PARSE_AT_MOST <= usize::MAX,
+        forall|k: int| 0 <= k < astar_cnds@.len() ==> wf((#[trigger] astar_cnds@[k]).repairs.v()) && !at_terminator(astar_cnds@[k].repairs.v()),
+        forall|k: int, s: Seq<Repair>| 0 <= k < astar_cnds@.len() && #[trigger] reading(astar_cnds@[k].repairs.v(), s) ==> in_laidx + s.len() < usize::MAX,
+        forall|a: Seq<Vec<ParseRepair>>, b: Seq<Vec<ParseRepair>>, j: int| #[trigger] simplified(parser, a, b) && 0 <= j < b.len() ==> in_laidx + (#[trigger] b[j])@.len() < usize::MAX,
+    ensures
+        r.1@.len() == 0 ==> r.0 == in_laidx && final(in_pstack)@ == old(in_pstack)@ && *final(astack) == *old(astack) && final(spans)@ == old(spans)@, // OBL: C05.recover.nothing_is_applied_when_nothing_is_reported C07.recover.nothing_is_applied_when_nothing_is_reported
+        r.1@.len() > 0 ==> r.0 == applied_la(parser, in_laidx as int, old(in_pstack)@, r.1@[0]@) && final(in_pstack)@ == applied_st(parser, in_laidx as int, old(in_pstack)@, r.1@[0]@), // OBL: C05.recover.the_first_reported_sequence_is_the_one_applied
+        r.1@.len() > 0 ==> exists|full: Seq<Vec<Vec<ParseRepair>>>| full.len() == astar_cnds@.len()
+            && (forall|k: int| 0 <= k < astar_cnds@.len() ==> is_image(this, (#[trigger] full[k])@, astar_cnds@[k].repairs.v(), in_laidx as int))
+            && simplified(parser, ranked(parser, in_laidx as int, old(in_pstack)@, full), r.1@), // OBL: C06.recover.the_report_is_the_simplified_ranking_of_every_candidates_sequences
+{
+    //@probe
+    //@body file=lrpar/src/lib/cpctplus.rs fn=recover block=`^\s*if astar_cnds\.is_empty\(\) \{` end=`^\s*\(laidx, rnk_rprs\)$`
+    //@rule n=3 `return \(in_laidx, vec!\[\]\);` => `return (in_laidx, Vec::new());`
+    //@rule n=1 `let Some\(full_rprs\) = self\.collect_repairs\(finish_by, in_laidx, astar_cnds\) else \{` => `let full_rprs = match this.collect_repairs(finish_by, in_laidx, astar_cnds) { Some(x_) => x_, None => {`
+    //@rule n=1 `^(\s*)\};$` =>>
+        } };
+        proof {
+            assert forall|k: int| 0 <= k < full_rprs@.len() implies (#[trigger] full_rprs@[k])@.len() > 0 by {
+                let h = astar_cnds@[k].repairs.v();
+                lemma_nonempty(h);
+                let s0 = choose|s0: Seq<Repair>| reading(h, s0);
+                let t = choose|t: Seq<Vec<Repair>>| image_of(this, full_rprs@[k]@, t, h, in_laidx as int);
+                assert(has(t, s0));
+            }
+        }
+        let ghost full_ = full_rprs@;
+    //@end
+    //@rule n=1 `rank_cnds\(parser, finish_by, in_laidx, in_pstack, full_rprs\)` => `rank_cnds(parser, finish_by, in_laidx, &*in_pstack, full_rprs)`
+    //@rule n=1 `let laidx = apply_repairs\(\s*parser,\s*in_laidx,\s*in_pstack,\s*&mut Some\(astack\),\s*&mut Some\(spans\),\s*&rnk_rprs\[([^\]]+)\],\s*\);` => `let laidx = apply_repairs_building(parser, in_laidx, in_pstack, astack, spans, &rnk_rprs[\1]);`
+    //@endbody
+}
+
+// ---- the other two closures `recover` hands to dijkstra: a node's neighbours, and whether a node is a success ----
+pub enum Action { Shift(StIdx<$T>), Reduce(PIdx<$T>), Accept, Error }
+impl Parser {
+    pub uninterp spec fn s_action(&self, st: StIdx<$T>, t: TIdx<$T>) -> Action;
+    pub uninterp spec fn s_next_tidx(&self, laidx: int) -> TIdx<$T>;
+    // parser.stable.action(st, t)
+    #[verifier::external_body] pub fn stable_action(&self, st: StIdx<$T>, t: TIdx<$T>) -> (r: Action) ensures r == self.s_action(st, t) { unimplemented!() }
+    #[verifier::external_body] pub fn next_tidx(&self, laidx: usize) -> (r: TIdx<$T>) ensures r == self.s_next_tidx(laidx as int) { unimplemented!() }
+}
+impl PStack {
+    pub uninterp spec fn nonempty(&self) -> bool;
+    pub uninterp spec fn stop(&self) -> StIdx<$T>;
+    // `*pstack.val().unwrap()`: the state on top of the (cactus) parse stack
+    #[verifier::external_body] pub fn val_unwrap(&self) -> (r: StIdx<$T>)
+        requires self.nonempty(), // OBLG: C07.success.a_nodes_parse_stack_is_never_empty
+        ensures r == self.stop()
+    { unimplemented!() }
+}
+pub open spec fn three_shifts(h: Hist) -> bool { nodes(h).len() >= 3 && is_shift_node(nodes(h)[0]) && is_shift_node(nodes(h)[1]) && is_shift_node(nodes(h)[2]) }
+// ends_with_parse_at_least_shifts is under contract in unit c06_cpct (there over the same list of values, Cactus::vals())
+#[verifier::external_body] pub fn ends_with_parse_at_least_shifts(repairs: &Cactus) -> (r: bool) ensures r == three_shifts(repairs.v()) { unimplemented!() }
+impl CPCTPlus {
+    pub uninterp spec fn ins(&self, n: &PathFNode) -> Seq<(u16, PathFNode)>;
+    pub uninterp spec fn del(&self, n: &PathFNode) -> Seq<(u16, PathFNode)>;
+    pub uninterp spec fn shf(&self, n: &PathFNode) -> Seq<(u16, PathFNode)>;
+    // the three moves are under contract in unit c06_moves; each only adds neighbours
+    #[verifier::external_body] pub fn insert(&self, n: &PathFNode, nbrs: &mut Vec<(u16, PathFNode)>) ensures final(nbrs)@ == old(nbrs)@ + self.ins(n) { unimplemented!() }
+    #[verifier::external_body] pub fn delete(&self, n: &PathFNode, nbrs: &mut Vec<(u16, PathFNode)>) ensures final(nbrs)@ == old(nbrs)@ + self.del(n) { unimplemented!() }
+    #[verifier::external_body] pub fn shift(&self, n: &PathFNode, nbrs: &mut Vec<(u16, PathFNode)>) ensures final(nbrs)@ == old(nbrs)@ + self.shf(n) { unimplemented!() }
+}
+pub open spec fn moves_of(this: &CPCTPlus, explore_all: bool, n: &PathFNode) -> Seq<(u16, PathFNode)> {
+    (if explore_all && last_of(n.repairs.v()) != Some(Repair::Delete) { this.ins(n) } else { Seq::empty() })
+        + (if explore_all { this.del(n) } else { Seq::empty() }) + this.shf(n)
+}
+//@ctx neighbours: every node has a history (it ends in the Terminator value)
+fn neighbours(this: &CPCTPlus, finish_by: Instant, explore_all: bool, n: &PathFNode, nbrs: &mut Vec<(u16, PathFNode)>) -> (r: bool)
+    requires n.repairs.v() is Cons,
+    ensures
+        r ==> final(nbrs)@ == old(nbrs)@ + moves_of(this, explore_all, n), // OBL: C06.neighbours.every_move_is_tried_except_an_insert_after_a_delete C05.neighbours.every_move_is_tried_except_an_insert_after_a_delete
+        !r ==> final(nbrs)@ == old(nbrs)@, // OBL: C06.neighbours.out_of_time_adds_nothing
+{
+    //@probe
+    //@body file=lrpar/src/lib/cpctplus.rs fn=recover block=`^\s*if Instant::now\(\) >= finish_by \{` end=`^\s*true$`
+    //@rule n=1 `if Instant::now\(\) >= finish_by \{` => `if Instant::now().ge(finish_by) {`
+    //@rule n=1 `match n\.last_repair\(\) \{` => `match last_repair(n) {`
+    //@rule n=* `\bself\.(insert|delete|shift)\(n, nbrs\);` => `this.\1(n, nbrs);`
+    //@endbody
+}
+//@ctx success: a node's parse stack is never empty
+fn success(parser: &Parser, n: &PathFNode) -> (r: bool)
+    requires n.pstack.nonempty(),
+    ensures r == (three_shifts(n.repairs.v()) || parser.s_action(n.pstack.stop(), parser.s_next_tidx(n.laidx as int)) is Accept), // OBL: C07.success.three_trailing_shifts_or_acceptance C05.success.three_trailing_shifts_or_acceptance C06.success.three_trailing_shifts_or_acceptance
+{
+    //@probe
+    //@body file=lrpar/src/lib/cpctplus.rs fn=recover block=`^\s*if ends_with_parse_at_least_shifts\(&n\.repairs\) \{` end=`^\s*\)$`
+    //@rule n=1 `parser\s*\.stable\s*\.action\(\*n\.pstack\.val\(\)\.unwrap\(\), parser\.next_tidx\(n\.laidx\)\)` => `parser.stable_action(n.pstack.val_unwrap(), parser.next_tidx(n.laidx))`
     //@endbody
 }
 //@use prelude/tail.rs
